@@ -25,6 +25,8 @@ type Env struct {
 	GenericInsts []*Decl
 	// SelfSlice is the declaration type NR0 []NR0, when the environment has one
 	SelfSlice *Decl
+	// HostileNames are the struct names taken from EnvOpt.LocalTypeNames
+	HostileNames []string
 	// Twins: two structs called Twin in two imported packages of the same name (see DrawEnv)
 	Twins []*Decl
 	// Aliases are alias declarations of the subject package (type A0 = T) over declarations that precede the
@@ -55,11 +57,14 @@ type EnvOpt struct {
 	NoFloatKeys   bool
 	NoBlankFields bool // by default one struct in four has a blank field (_ T) of a basic type
 	NoLists       bool // by default half of the environments declare a list node (and a tree node) struct
-	NoGenerics    bool // by default one environment in three declares 1-2 generic structs and instantiates each twice
-	NoAliases     bool // by default half of the environments declare 1-2 aliases and use them as field / argument types
-	NoUnicode     bool // by default one environment in five gives its general structs names that start with a multi-byte letter
-	NoResultNames bool // by default one signature in three has named results
-	NoUserDecls   bool // by default one environment in three declares objects named like minted helper names
+	// LocalTypeNames: in one environment out of five the structs of the subject package are named with these
+	// (unexported) identifiers, the names generated code uses for its own parameters and variables
+	LocalTypeNames []string
+	NoGenerics     bool // by default one environment in three declares 1-2 generic structs and instantiates each twice
+	NoAliases      bool // by default half of the environments declare 1-2 aliases and use them as field / argument types
+	NoUnicode      bool // by default one environment in five gives its general structs names that start with a multi-byte letter
+	NoResultNames  bool // by default one signature in three has named results
+	NoUserDecls    bool // by default one environment in three declares objects named like minted helper names
 	// Avoid lists finding ids whose region the generator must not enter.
 	Avoid map[string]bool
 }
@@ -336,6 +341,13 @@ func DrawEnv(t *rapid.T, opt EnvOpt) *Env {
 	}
 	for i := range gen {
 		gen[i] = &Decl{Name: fmt.Sprintf(sname, i), IsStruct: true}
+	}
+	if len(opt.LocalTypeNames) >= len(gen) && rapid.IntRange(0, 4).Draw(t, "localnames") == 0 {
+		names := rapid.Permutation(opt.LocalTypeNames).Draw(t, "localnameperm")
+		for i := range gen {
+			gen[i].Name = names[i]
+			e.HostileNames = append(e.HostileNames, names[i])
+		}
 	}
 	for i, d := range gen {
 		nf := rapid.IntRange(0, 6).Draw(t, "nfields")
